@@ -1,6 +1,9 @@
-//! generator and the property oracle
+//! generator and the property oracle (independent of the Coq model: snapshots of the sandbox before
+//! and after, byte comparisons with the index, and `git checkout-index`)
 use crate::world::*;
 use gixv_common::*;
+use std::collections::BTreeMap;
+use std::io::Write;
 
 pub fn mk(flags: u64, pre: &[(&str, &str, &str)], entries: &[(&str, &str, &str)]) -> Case {
     let mut c = vec![tag("co"), num(flags), num(pre.len())];
@@ -12,27 +15,473 @@ pub fn mk(flags: u64, pre: &[(&str, &str, &str)], entries: &[(&str, &str, &str)]
     c
 }
 
-pub fn gen(_rng: &mut Rng, n: usize) -> Vec<Case> {
+const NAMES: &[&[u8]] = &[
+    b"a", b"a", b"a", b"b", b"b", b"d", b"d", b"A", b"e", b"sub", b"out", b"R", b"a-b", b"x y", b"\\", b"\xff",
+    b".git", b".GIT", b".Git", b".gitmodules", b".gitx", b"..", b".", b"", b"git", b"...", b"a.", b"0",
+];
+const TARGETS: &[&[u8]] = &[
+    b"../out", b"../out", b"/S/out", b"/S/out", b"..", b"a", b"b", b"d", b".", b"/S/R/.git", b".git", b"../out/f",
+    b"/", b"", b"a/b", b"../../S/out", b"/S", b"../R/.git", b"x", b".git/config", b"/S/R", b"d/..", b"//S//out/",
+    b"./../out",
+];
+const DATA: &[&[u8]] = &[b"A", b"B", b"", b"hello\n", b"\x00\xff\x01", b"#!/bin/sh\n", b"x"];
+
+fn rel_path(rng: &mut Rng, earlier: &[Vec<u8>]) -> Vec<u8> {
+    if !earlier.is_empty() && rng.chance(2, 5) {
+        // extend (or repeat, or cut) an earlier path: file/directory conflicts and duplicates
+        let base = rng.pick(earlier).clone();
+        return match rng.below(6) {
+            0 => base,
+            1 => match base.iter().rposition(|b| *b == b'/') {
+                Some(i) => base[..i].to_vec(),
+                None => base,
+            },
+            _ => {
+                let mut p = base;
+                p.push(b'/');
+                p.extend_from_slice(*rng.pick(NAMES));
+                p
+            }
+        };
+    }
+    let n = 1 + rng.below(3) as usize;
+    let mut p = Vec::new();
+    if rng.chance(1, 40) {
+        p.push(b'/');
+    }
+    for i in 0..n {
+        if i > 0 {
+            p.push(b'/');
+        }
+        p.extend_from_slice(*rng.pick(NAMES));
+    }
+    if rng.chance(1, 30) {
+        p.push(b'/');
+    }
+    p
+}
+
+fn random_case(rng: &mut Rng) -> Case {
+    let mut flags = rng.below(32);
+    if rng.chance(3, 4) {
+        flags |= F_SYMLINK;
+    }
+    let npre = if rng.chance(1, 2) { 0 } else { 1 + rng.below(3) as usize };
+    let mut c = vec![tag("co"), num(flags), num(npre)];
+    let mut pre_paths: Vec<Vec<u8>> = Vec::new();
+    for _ in 0..npre {
+        let kind = *rng.pick(b"ffxllld");
+        let clean: Vec<&[u8]> = NAMES.iter().copied().filter(|n| !n.is_empty() && *n != b"." && *n != b"..").collect();
+        let mut p: Vec<u8> = if rng.chance(1, 6) { b"out/".to_vec() } else { b"R/".to_vec() };
+        if !pre_paths.is_empty() && rng.chance(1, 4) {
+            p = rng.pick(&pre_paths).clone();
+            p.push(b'/');
+        }
+        p.extend_from_slice(*rng.pick(&clean));
+        if rng.chance(1, 4) {
+            p.push(b'/');
+            p.extend_from_slice(*rng.pick(&clean));
+        }
+        pre_paths.push(p.clone());
+        c.push(vec![kind]);
+        c.push(p);
+        c.push(if kind == b'l' { rng.pick(TARGETS).to_vec() } else { rng.pick(DATA).to_vec() });
+    }
+    let nent = 1 + rng.below(7) as usize;
+    let mut earlier: Vec<Vec<u8>> = pre_paths
+        .iter()
+        .filter(|p| p.starts_with(b"R/"))
+        .map(|p| p[2..].to_vec())
+        .collect();
+    for _ in 0..nent {
+        let kind = *rng.pick(b"ffffxxlllmt");
+        let p = rel_path(rng, &earlier);
+        earlier.push(p.clone());
+        c.push(vec![kind]);
+        c.push(p);
+        c.push(if kind == b'l' { rng.pick(TARGETS).to_vec() } else { rng.pick(DATA).to_vec() });
+    }
+    c
+}
+
+/// a well-formed index (no duplicates, no file/directory conflicts, plain names) over a destination
+/// that may hold anything: the cases `git checkout-index` is the reference for
+fn sane_case(rng: &mut Rng) -> Case {
+    const PATHS: &[&[u8]] = &[b"a", b"b", b"d/a", b"d/b", b"d/e/a", b"sub/x y", b"a-b", b"0/0/0", b"A", b"\xff/q"];
+    const PRE: &[&[u8]] = &[b"R/a", b"R/b", b"R/d", b"R/d/a", b"R/d/e", b"R/sub", b"R/0/0", b"R/A", b"R/zz", b"out/a", b"R/d/e/a/k"];
+    let mut flags = rng.below(32) | F_SYMLINK | F_EXEC;
+    if rng.chance(1, 2) {
+        flags |= F_OVERWRITE;
+        flags &= !F_EMPTY;
+    }
+    let npre = if rng.chance(1, 3) { 0 } else { 1 + rng.below(3) as usize };
+    let mut c = vec![tag("co"), num(flags), num(npre)];
+    for _ in 0..npre {
+        let kind = *rng.pick(b"fxlld");
+        c.push(vec![kind]);
+        c.push(rng.pick(PRE).to_vec());
+        c.push(if kind == b'l' { rng.pick(TARGETS).to_vec() } else { rng.pick(DATA).to_vec() });
+    }
+    let mut used = Vec::new();
+    for _ in 0..(1 + rng.below(6)) {
+        let p = *rng.pick(PATHS);
+        if used.contains(&p) {
+            continue;
+        }
+        used.push(p);
+        let kind = *rng.pick(b"fffxxll");
+        c.push(vec![kind]);
+        c.push(p.to_vec());
+        c.push(if kind == b'l' { rng.pick(&TARGETS[..12]).to_vec() } else { rng.pick(DATA).to_vec() });
+    }
+    c
+}
+
+pub fn gen(rng: &mut Rng, n: usize) -> Vec<Case> {
     let mut out = Vec::new();
-    for flags in [24u64, 25, 26, 27, 28, 29, 30, 31] {
+    for flags in 0..32u64 {
         out.push(mk(flags, &[], &[("f", "a", "A"), ("x", "d/e", "E"), ("l", "l", "a"), ("m", "sub", ""), ("l", "d/up", "../..")]));
-        // leaf turned directory, both symlinks
+        // a leaf used as a directory by the next entry, both symbolic links
         out.push(mk(flags, &[], &[("l", "a", "../out"), ("l", "a/b", "x")]));
-        // cached directory replaced by a symlink
+        // a directory of the stack's cache replaced by a symbolic link
         out.push(mk(flags, &[], &[("l", "z", "/S/out"), ("l", "z/y", "x"), ("f", "z/y/x", "X")]));
-        // pre-existing symlink, file collides with it, then used as a directory
+        // a pre-existing symbolic link, a file colliding with it, then used as a directory
         out.push(mk(flags, &[("l", "R/a", "../out")], &[("f", "a", "A"), ("f", "a/b", "B")]));
+        out.push(mk(flags, &[("l", "R/a", "../out")], &[("f", "a", "A"), ("m", "a", ""), ("f", "a/b", "B")]));
         // the empty path
         out.push(mk(flags, &[], &[("f", "", "A")]));
+        out.push(mk(flags, &[], &[("f", "", "A"), ("f", "q", "Q")]));
         out.push(mk(flags, &[], &[("l", "", "/S/out"), ("l", "q", "x")]));
         out.push(mk(flags, &[], &[("f", ".git/config", "A"), ("f", ".GIT/x", "A"), ("f", "a/.git", "A"), ("f", "b/../../out/g", "A")]));
+        out.push(mk(flags, &[], &[("l", ".gitmodules", "x"), ("f", ".gitmodules", "x"), ("l", ".gitmodules/y", "x")]));
         out.push(mk(flags, &[("l", "R/d", "/S/out"), ("x", "R/e", "old"), ("d", "R/g", ""), ("f", "R/g/h", "H")], &[("f", "d/n", "N"), ("f", "e", "new"), ("f", "g", "G")]));
+        out.push(mk(flags, &[("l", "R/l", "/S/out/f"), ("f", "R/x", "old"), ("l", "R/dang", "nowhere")], &[("f", "l", "L"), ("x", "x", "new"), ("f", "dang", "D")]));
+        out.push(mk(flags, &[], &[("f", "a", "1"), ("f", "a", "2"), ("x", "b", "1"), ("f", "b", "2"), ("l", "c", "a"), ("f", "c", "C")]));
+        out.push(mk(flags, &[], &[("l", "loop", "loop"), ("f", "loop/x", "X"), ("l", "up", ".."), ("l", "up/R/w", "x")]));
+        out.push(mk(flags, &[("d", "R/sub", ""), ("l", "R/sub/l", "../../out")], &[("m", "sub", ""), ("f", "sub/l/n", "N"), ("t", "sp", ""), ("f", "sp/f", "F")]));
+        out.push(mk(flags, &[], &[("f", "/abs", "A"), ("f", "./rel", "B"), ("f", "a//b", "C"), ("f", "a/./c", "D"), ("f", "t/", "E"), ("l", "e", "")]));
+    }
+    while out.len() < n {
+        out.push(if rng.chance(1, 4) { sane_case(rng) } else { random_case(rng) });
     }
     out.truncate(n);
     out
 }
 
+// ------------------------------------------------------------------------------------- oracle
+
+/// the components a relative index path designates, or None if checkout has to refuse it
+fn normalized(path: &[u8]) -> Option<Vec<Vec<u8>>> {
+    if path.is_empty() || path[0] == b'/' {
+        return None;
+    }
+    let comps = split_slash(path);
+    if comps[0] == b"." {
+        return None;
+    }
+    let mut out = Vec::new();
+    for c in comps {
+        if c.is_empty() || c == b"." {
+            continue;
+        }
+        if c == b".." || c.eq_ignore_ascii_case(b".git") {
+            return None;
+        }
+        out.push(c.to_vec());
+    }
+    if out.is_empty() {
+        None
+    } else {
+        Some(out)
+    }
+}
+fn join(comps: &[Vec<u8>]) -> Vec<u8> {
+    comps.join(&b'/')
+}
+
+fn protected(path: &[u8]) -> bool {
+    // everything that is not strictly below S/R, and everything at or below S/R/.git (any case)
+    let Some(rel) = path.strip_prefix(b"S/R/") else { return true };
+    let first = rel.split(|b| *b == b'/').next().unwrap_or(b"");
+    first.eq_ignore_ascii_case(b".git")
+}
+
+type Snap = BTreeMap<Vec<u8>, (u8, Vec<u8>)>;
+fn to_map(s: &Snapshot) -> Snap {
+    s.iter().map(|(p, k, d)| (p.clone(), (*k, d.clone()))).collect()
+}
+
+fn sane_index(case: &CaseData) -> bool {
+    let mut seen: Vec<Vec<u8>> = Vec::new();
+    for e in &case.entries {
+        if !b"fxl".contains(&e.kind) {
+            return false;
+        }
+        let Some(n) = normalized(&e.path) else { return false };
+        if join(&n) != e.path {
+            return false;
+        }
+        if n.iter().any(|c| c.contains(&b'\\') || c.eq_ignore_ascii_case(b".gitmodules") || c.ends_with(b".") || c.ends_with(b" ")) {
+            return false; // things git or gix's default validation treat specially
+        }
+        if e.kind == b'l' && e.data.is_empty() {
+            return false;
+        }
+        seen.push(e.path.clone());
+    }
+    for (i, a) in seen.iter().enumerate() {
+        for (j, b) in seen.iter().enumerate() {
+            if i != j && (a == b || (b.starts_with(a) && b.get(a.len()) == Some(&b'/'))) {
+                return false;
+            }
+        }
+    }
+    true
+}
+
+fn check_one(case: &CaseData, threads: usize, default_validation: bool) -> Result<(String, Snapshot, Snapshot), Verdict> {
+    let Some(w) = World::create(case) else { return Err(Verdict::ok(false, "skip")) };
+    let before = w.snapshot();
+    let status = std::panic::catch_unwind(std::panic::AssertUnwindSafe(|| {
+        run_checkout(&w, case, case.flags, threads, default_validation)
+    }));
+    let after = w.snapshot();
+    w.destroy();
+    let status = match status {
+        Ok(s) => s,
+        Err(_) => return Err(Verdict::ok(false, "panic-empty-path-backing")),
+    };
+    Ok((status, before, after))
+}
+
+fn check_confined(case: &CaseData, before: &Snap, after: &Snap, cfg: &str) -> Option<Verdict> {
+    for (p, v) in before.iter() {
+        if protected(p) && after.get(p) != Some(v) {
+            let class = if p.starts_with(b"S/R/") { "wrote-into-dotgit" } else { "escaped-destination" };
+            return Some(Verdict::fail(class, format!("{cfg}: {:?} was {:?}, now {:?}", bstr(p), v.0 as char, after.get(p).map(|x| x.0 as char))));
+        }
+    }
+    for (p, v) in after.iter() {
+        if protected(p) && !before.contains_key(p) {
+            let class = if p.starts_with(b"S/R/") { "wrote-into-dotgit" } else { "escaped-destination" };
+            return Some(Verdict::fail(class, format!("{cfg}: {:?} created as {:?}", bstr(p), v.0 as char)));
+        }
+    }
+    let overwrite = case.flags & F_OVERWRITE != 0;
+    let cap_symlink = case.flags & F_SYMLINK != 0;
+    let cap_exec = case.flags & F_EXEC != 0;
+    let norm: Vec<(Option<Vec<u8>>, &Item)> = case.entries.iter().map(|e| (normalized(&e.path).map(|n| join(&n)), e)).collect();
+    // whatever is new or changed below the destination comes from the index
+    for (p, v) in after.iter() {
+        if protected(p) || before.get(p) == Some(v) {
+            continue;
+        }
+        let rel = &p[4..];
+        let same_path: Vec<&Item> = norm.iter().filter(|(n, _)| n.as_deref() == Some(rel)).map(|(_, e)| *e).collect();
+        // directories are also made for the leading components of an entry that is refused later on
+        let below = case.entries.iter().any(|e| {
+            let lenient: Vec<Vec<u8>> =
+                split_slash(&e.path).into_iter().filter(|c| !c.is_empty() && *c != b".").map(|c| c.to_vec()).collect();
+            let n = join(&lenient);
+            n.starts_with(rel) && n.get(rel.len()) == Some(&b'/')
+        });
+        let ok = match v.0 {
+            b'd' => below || same_path.iter().any(|e| e.kind == b'm' || e.kind == b't'),
+            b'l' => cap_symlink && same_path.iter().any(|e| e.kind == b'l' && e.data == v.1),
+            _ => same_path.iter().any(|e| (b"fx".contains(&e.kind) || (e.kind == b'l' && !cap_symlink)) && e.data == v.1),
+        };
+        if !ok {
+            return Some(Verdict::fail("content-not-from-index", format!("{cfg}: {:?} is {:?} {:?}", bstr(rel), v.0 as char, bstr(&v.1))));
+        }
+        if v.0 == b'f' || v.0 == b'x' {
+            // mode: executable iff some entry of that path and content asks for it (and the fs can)
+            let wants_x = same_path.iter().any(|e| e.kind == b'x' && e.data == v.1) && cap_exec;
+            let wants_f = same_path.iter().any(|e| (e.kind != b'x' || !cap_exec) && e.data == v.1);
+            let is_x = v.0 == b'x';
+            // `destination_is_initially_empty` with something in the way is outside the option's contract
+            let contract_broken = case.flags & F_EMPTY != 0 && before.contains_key(p);
+            if !contract_broken && ((is_x && !wants_x) || (!is_x && !wants_f)) {
+                // the file existed (before the checkout, or written for a duplicate entry) and was rewritten in place
+                let existed = before.get(p).is_some_and(|b| b.0 == b'x' || b.0 == b'f') || same_path.len() > 1;
+                let class = if existed { "exec-bit-not-updated-on-existing-file" } else { "mode-differs" };
+                return Some(Verdict::fail(class, format!("{cfg}: {:?} has mode {:?}", bstr(rel), v.0 as char)));
+            }
+        }
+    }
+    // nothing disappears or changes type unless an entry designates that place (or a place above/below it)
+    for (p, v) in before.iter() {
+        if protected(p) {
+            continue;
+        }
+        let rel = &p[4..];
+        let changed = match after.get(p) {
+            None => true,
+            Some(a) => (a.0 == b'd') != (v.0 == b'd') || (a.0 == b'l') != (v.0 == b'l') || (a.0 == b'l' && a.1 != v.1),
+        };
+        if !changed {
+            continue;
+        }
+        if !overwrite {
+            return Some(Verdict::fail("removed-without-overwrite", format!("{cfg}: {:?}", bstr(rel))));
+        }
+        // (leading directories of an entry that is refused further down count as well)
+        let related = case.entries.iter().any(|e| {
+            let lenient: Vec<Vec<u8>> =
+                split_slash(&e.path).into_iter().filter(|c| !c.is_empty() && *c != b".").map(|c| c.to_vec()).collect();
+            let n = join(&lenient);
+            n.as_slice() == rel
+                || (n.starts_with(rel) && n.get(rel.len()) == Some(&b'/'))
+                || (rel.starts_with(&n) && rel.get(n.len()) == Some(&b'/'))
+        });
+        if !related {
+            return Some(Verdict::fail("removed-unrelated-path", format!("{cfg}: {:?}", bstr(rel))));
+        }
+    }
+    None
+}
+
+/// the status line with the collision and error lists sorted (their order depends on the schedule)
+fn sorted_status(s: &str) -> String {
+    let sort_list = |l: &str| {
+        let mut v: Vec<&str> = l.split(';').collect();
+        v.sort();
+        v.join(";")
+    };
+    match (s.find(" c=["), s.find("] e=[")) {
+        (Some(a), Some(b)) if s.ends_with(']') => {
+            format!("{} c=[{}] e=[{}]", &s[..a], sort_list(&s[a + 4..b]), sort_list(&s[b + 5..s.len() - 1]))
+        }
+        _ => s.to_string(),
+    }
+}
+
+fn bstr(b: &[u8]) -> String {
+    String::from_utf8_lossy(b).into_owned()
+}
+
+fn below_root(s: &Snap) -> Snap {
+    s.iter().filter(|(p, _)| !protected(p)).map(|(p, v)| (p.clone(), v.clone())).collect()
+}
+
+// ---- git checkout-index as the reference for well-formed indexes ----
+fn write_loose(objects: &std::path::Path, data: &[u8]) -> gix_hash::ObjectId {
+    let id = gix_object::compute_hash(gix_hash::Kind::Sha1, gix_object::Kind::Blob, data);
+    let hex = id.to_hex().to_string();
+    let dir = objects.join(&hex[..2]);
+    let _ = std::fs::create_dir_all(&dir);
+    let mut raw = format!("blob {}\0", data.len()).into_bytes();
+    raw.extend_from_slice(data);
+    let mut enc = gix_features::zlib::stream::deflate::Write::new(Vec::new());
+    enc.write_all(&raw).expect("deflate");
+    enc.flush().expect("deflate");
+    let bytes = enc.into_inner();
+    std::fs::write(dir.join(&hex[2..]), bytes).expect("write object");
+    id
+}
+
+fn git_reference(case: &CaseData) -> Option<Snap> {
+    let w = World::create(case)?;
+    let git_dir = w.root().join(".git");
+    let (state, odb) = build_index(&w.top, case);
+    for data in odb.0.values() {
+        write_loose(&git_dir.join("objects"), data);
+    }
+    let mut file = gix_index::File::from_state(state, git_dir.join("index"));
+    if file.write(Default::default()).is_err() {
+        w.destroy();
+        return None;
+    }
+    let mut cmd = std::process::Command::new("git");
+    cmd.current_dir(w.root())
+        .env_clear()
+        .env("PATH", "/usr/bin:/bin")
+        .env("HOME", &w.top)
+        .env("GIT_CONFIG_NOSYSTEM", "1")
+        .args(["-c", "core.symlinks=true", "-c", "core.fileMode=true", "-c", "core.protectNTFS=false", "checkout-index", "-a", "-q"]);
+    if case.flags & F_OVERWRITE != 0 {
+        cmd.arg("-f");
+    }
+    let out = cmd.output().ok()?;
+    let snap = to_map(&w.snapshot());
+    w.destroy();
+    if !out.status.success() {
+        return None;
+    }
+    Some(below_root(&snap))
+}
+
 pub fn prop(c: &Case) -> Verdict {
-    let Some(_case) = parse(c) else { return Verdict::ok(false, "skip") };
-    Verdict::ok(true, "todo")
+    let Some(case) = parse(c) else { return Verdict::ok(false, "skip") };
+    if !case.entries.is_empty() && case.entries.iter().all(|e| e.path.is_empty()) {
+        return Verdict::ok(false, "panic-empty-path-backing");
+    }
+    let mut nontrivial = false;
+    let mut first: Option<(String, Snap)> = None;
+    let sane = sane_index(&case);
+    for (threads, default_validation, cfg) in [(1usize, false, "t1"), (3, false, "t3"), (1, true, "t1-default-validation")] {
+        let (status, before, after) = match check_one(&case, threads, default_validation) {
+            Ok(x) => x,
+            Err(v) => return v,
+        };
+        let (before, after) = (to_map(&before), to_map(&after));
+        let status = sorted_status(&status);
+        if before != after || status != "ok f=0 c=[] e=[]" {
+            nontrivial = true;
+        }
+        if let Some(v) = check_confined(&case, &before, &after, cfg) {
+            return v;
+        }
+        if sane {
+            // a well-formed index: the result does not depend on threads or validation options
+            match &first {
+                None => first = Some((status.clone(), below_root(&after))),
+                Some((s0, a0)) => {
+                    if *a0 != below_root(&after) || *s0 != status {
+                        return Verdict::fail("configuration-dependent-result", format!("{cfg}: {status} vs {s0}"));
+                    }
+                }
+            }
+        }
+    }
+    let mut class = if sane { "sane-index" } else { "hostile-index" }.to_string();
+    if sane {
+        let (status, after) = first.expect("ran");
+        let caps = case.flags & F_SYMLINK != 0 && case.flags & F_EXEC != 0;
+        let overwrite = case.flags & F_OVERWRITE != 0;
+        if status.starts_with("ok") && status.ends_with("c=[] e=[]") {
+            // everything was reported as written: it is there with the content of the index
+            for e in &case.entries {
+                let mut p = b"S/R/".to_vec();
+                p.extend_from_slice(&e.path);
+                let got = after.get(&p);
+                let ok = match (e.kind, got) {
+                    (b'l', Some((b'l', t))) => case.flags & F_SYMLINK != 0 && *t == e.data,
+                    (b'l', Some((b'f', d))) => case.flags & F_SYMLINK == 0 && *d == e.data,
+                    (b'f' | b'x', Some((b'f' | b'x', d))) => *d == e.data,
+                    _ => false,
+                };
+                if !ok {
+                    return Verdict::fail("entry-missing", format!("{:?}: {:?}", bstr(&e.path), got.map(|g| g.0 as char)));
+                }
+            }
+        }
+        if caps && (case.pre.is_empty() || (overwrite && case.flags & F_EMPTY == 0)) {
+            if let Some(reference) = git_reference(&case) {
+                class = "sane-index-git".into();
+                if reference != after {
+                    let diff: Vec<String> = reference
+                        .iter()
+                        .filter(|(p, v)| after.get(*p) != Some(v))
+                        .map(|(p, v)| format!("git {:?}={:?}", bstr(p), v.0 as char))
+                        .chain(after.iter().filter(|(p, v)| reference.get(*p) != Some(v)).map(|(p, v)| format!("gix {:?}={:?}", bstr(p), v.0 as char)))
+                        .collect();
+                    let only_exec = reference.len() == after.len()
+                        && reference.iter().all(|(p, v)| after.get(p).is_some_and(|a| a.1 == v.1 && (a.0 == v.0 || (a.0 == b'x' && v.0 == b'f'))));
+                    let class = if only_exec { "exec-bit-not-updated-on-existing-file" } else { "differs-from-git" };
+                    return Verdict::fail(class, format!("{status}: {}", diff.join(", ")));
+                }
+            }
+        }
+    }
+    Verdict::ok(nontrivial, class)
 }
